@@ -63,7 +63,9 @@ Lemma toy_session : forall (app : Z -> resp) sched,
   got s = serve_all app (fun _ => true) None (allreqs s) /\ length (got s) = length (allreqs s).
 Proof.
   intros app sched Hwf s Hp Hw.
-  destruct (quiescent_all app (fun _ => true) toy_ser toy_parse (fun _ => eq_refl) Hwf
-                          toy_complete toy_incomplete sched Hp Hw) as [A [_ [B _]]].
+  destruct (quiescent_all app (fun _ => true) toy_ser toy_parse (fun _ => True) (fun _ => eq_refl) Hwf
+                          (fun _ => I) (fun m rest _ => toy_complete m rest)
+                          (fun m pre suf _ => toy_incomplete m pre suf)
+                          (fun m _ _ => ltac:(unfold toy_ser; discriminate)) sched Hp Hw) as [A [_ [B _]]].
   split; assumption.
 Qed.
